@@ -71,7 +71,7 @@ func genC08(r *sim.Rand, tier string) *sim.Program {
 		if r.Chance(1, 5) {
 			mixed = r.Range(1, 2) // 1: only the responder generates confirmation values; 2: only the initiator does
 		}
-		p.Add("session", r.Intn(2), r.Intn(2), fault, r.Intn(3), r.Intn(1<<16), 1+r.Intn(255), r.Intn(1<<30), r.Intn(1<<30), degenerate, reuse, mixed, r.PickInt(0, 0, 1, 2, 3))
+		p.Add("session", r.Intn(2), r.Intn(2), fault, r.Intn(3), r.Intn(1<<16), 1+r.Intn(255), r.Intn(1<<30), r.Intn(1<<30), degenerate, reuse, mixed, r.PickInt(0, 0, 1, 2, 3), r.PickInt(0, 0, 0, 1))
 	}
 	if r.Chance(1, 3) {
 		p.Add("ecdh")
@@ -591,6 +591,31 @@ func execC08(t *testing.T, p *sim.Program, c *sim.Ctx) {
 				}
 			}
 			prevM1, prevM2, prevM3 = m1, m2, m3
+			if op.Int(12)&1 == 1 {
+				// both applications wipe their protocol objects: everything that was handed to or is owned by the callers must survive
+				snap := func() []byte {
+					var b []byte
+					for _, x := range [][]byte{keyA, keyB, m1, m2, m3, idA, idB, privA.D.Bytes(), privA.X.Bytes(), privA.Y.Bytes(), privB.D.Bytes(), privB.X.Bytes(), privB.Y.Bytes()} {
+						b = append(append(b, byte(len(x)), byte(len(x)>>8)), x...)
+					}
+					return b
+				}
+				before := snap()
+				if A.ke != nil {
+					A.ke.Destroy()
+				}
+				if B.ke != nil {
+					B.ke.Destroy()
+				}
+				if A.ke != nil || B.ke != nil {
+					c.Hit("probe:destroy-after-session")
+				}
+				keepA, keepB = nil, nil
+				if !bytes.Equal(before, snap()) {
+					c.Fail("destroy-damaged-caller-data", i, op.K, "Destroy on the key-exchange objects changed the agreed key, a message, an identifier or a static key that belongs to the caller")
+					return
+				}
+			}
 		}
 	}
 }
